@@ -359,7 +359,7 @@ def o_c11(run):
     # this version), or - independent of it, and of the size of the acceptance window - an AddSnapshot answered with
     # success for the client's LATEST version while the stored snapshot is another version: such a request meets every
     # condition of acceptance whatever the window is, so it IS the most recently accepted snapshot from then on.
-    mine, latest_of = {}, {}
+    mine, latest_of, order = {}, {}, {}
     for g, pd, praw, st in iterate(run):
         ops = g.ops
         for k, r in enumerate(ops):
@@ -370,8 +370,15 @@ def o_c11(run):
                 latest_of[c] = st.acc[c][-1][0]
             if r.op == 'av' and r.i_out[0] == 'ok':
                 latest_of[c] = r.i_out[1]
+            if r.op == 'av' and r.i_out[0] == 'ok':
+                order.setdefault(c, []).append(r.i_out[1])
             if r.op == 'as' and r.i_out[0] == 'ok':
-                if r.i_out[1] == '1' or (r.arg == latest_of.get(c) and r.arg != NIL and (mine.get(c) or (None,))[0] != r.arg):
+                cur = (mine.get(c) or (None,))[0]
+                ch = order.get(c) or st.chain(c)
+                # whatever the window is, the snapshot never moves BACKWARDS along the chain (Lean: C10_moves_forward): an
+                # upload for a version older than the one that holds the snapshot is a decline, whatever the implementation did
+                backwards = cur in ch and r.arg in ch and ch.index(r.arg) < ch.index(cur)
+                if (r.i_out[1] == '1' and not backwards) or (r.arg == latest_of.get(c) and r.arg != NIL and cur != r.arg):
                     mine[c] = (r.arg, bodykey(r))
             if r.op != 'gs':
                 continue
